@@ -17,6 +17,8 @@ FAMILY_ARGS = {
     'leasemgr': {'quick': [], 'thorough': []},
     'hist': {'quick': ['-seed', '{seed}', '-n', '700'],
              'thorough': ['-seed', '{seed}', '-n', '12000']},
+    'events': {'quick': ['-seed', '{seed}', '-n', '600'], 'thorough': ['-seed', '{seed}', '-n', '6000']},
+    'stress': {'quick': ['-seed', '{seed}', '-rounds', '2', '-ms', '300'], 'thorough': ['-seed', '{seed}', '-rounds', '10', '-ms', '1500']},
     'lease': {'quick': ['-seed', '{seed}', '-n', '600'],
               'thorough': ['-seed', '{seed}', '-n', '12000']},
     'cycle': {'quick': ['-seed', '{seed}', '-n', '2000', '-exhaustive', '3', '-maxops', '40'],
@@ -190,6 +192,18 @@ PROPS = {
         'rule': _lease_rule + 'non-trivial = a live reconfiguration, a stop, or a failed start happened',
         'explanation': 'phase automaton (monotone), one shutdown, no request after stop, SetReservedCapacity immediate, re-provision keeps existing/drops truncated partitions, index safety invariant',
         'assumptions': _lease_assumptions + ['absence of panics in the real code is observed on every scenario (harness recover + child process exit), not proved'],
+    },
+    'C20': {
+        'families': ['events', 'stress'], 'fields': {'events': None, 'stress': None},
+        'nontrivial': r'(script=[^ ]*E\d+g)|(^stress )',
+        'rule': 'events family: seeded random scenarios on the REAL listener registry of both generations: 1-5 initial listeners, scripts of concurrent emit / RemoveListener / AddListener '
+                'goroutines, listeners that block inside an emit until a gate opens (so removals and additions overlap emits in progress), real time; every call, return and listener entry is logged in one global order, '
+                'replayed through the M-Eventer machine under every placement of the lock steps between call and return (trace acceptance), and through the C20 monitors; '
+                'stress family: every public method of Batcher / SharedResource / event API of both generations hammered from 12 goroutines in a binary built with the Go race detector (races, panics, watchdog); '
+                'non-trivial = an emit with a blocked listener, or a stress round',
+        'explanation': 'PARTIAL: listener-registry theorems (exactly once, nothing after RemoveListener returned, no write during an emit, progress) proved over M-Eventer; data-race / panic / deadlock freedom of the whole API is explored with the race detector, not proved',
+        'assumptions': ['Go memory model, sync.RWMutex and the race detector are trusted', 'synchronous re-entry from inside a listener is excluded by the property and not modelled',
+                        'the stress family is exploration (sampling of schedules), it supports but does not prove the first sentence of C20'],
     },
     'C14': {
         'families': ['admit', 'hist'],
